@@ -2,10 +2,13 @@
 predicates, path-sensitive reachability (correlated branches + constant flag
 locals), error exits."""
 from collections import deque
+import sys
+
+sys.setrecursionlimit(10000)
 
 from .model import call_matches, callee_name, op_local, op_place, path_matches
 
-MAX_DEPTH = 14
+MAX_DEPTH = 80
 
 # calls that return (a view of) their first argument: followed when tracing provenance
 TRANSPARENT = [
@@ -124,12 +127,14 @@ class Tracer:
         self.b = body
         self.memo = {}
         self.transparent = transparent
+        self._trunc = 0
 
     def local(self, l, depth=0):
         if l in self.memo:
             return self.memo[l]
         b = self.b
         if depth > MAX_DEPTH:
+            self._trunc += 1
             return E("local", extra=l, ty=b.local_ty(l))
         if 1 <= l <= b.argc and not b.defs.get(l):
             e = E("arg", extra=(l, b.local_name(l)), ty=b.local_ty(l))
@@ -141,11 +146,15 @@ class Tracer:
             self.memo[l] = e
             return e
         self.memo[l] = E("local", extra=l, ty=b.local_ty(l))  # cycle guard
+        t0 = self._trunc
         e = self.node_value(d[0], depth + 1)
         if b.local_name(l) and _local_outside_calls(e):
             # a named snapshot of a mutable local: the copy is not the current value
             e = E("local", extra=l, ty=b.local_ty(l))
-        self.memo[l] = e
+        if self._trunc != t0:
+            del self.memo[l]      # truncated by the depth limit: do not cache a partial trace
+        else:
+            self.memo[l] = e
         return e
 
     def node_value(self, nid, depth=0):
